@@ -180,6 +180,39 @@ def gen_c(rng, sc, tier):
     sc.max_ms = 60000
 
 
+def gen_d(rng, sc, tier):
+    """the UDP relay of an authenticated SOCKS5 association: datagrams of a peer that never authenticated are not forwarded"""
+    enforce = rng.random() < 0.3
+    auth = {"required": True, "users": [{"username": "alice", "password": "s3cret"}]}
+    li = sc.add_socks_listener("l", auth=auth)
+    if enforce:
+        sc.cfg["listeners"][-1]["enforceUdpClient"] = True
+    sc.add_direct("d")
+    sc.rule("d")
+    oip, oport = sc.origin_ip(), sc.port()
+    sc.actors.append({"essential": True, "kind": "udp", "id": "uorigin", "bind": "%s:%d" % (oip, oport), "echo": True, "ops": []})
+    owner_ip, stranger_ip = sc.client_ip(), sc.client_ip()
+    # the owner declares where its datagrams will come from: nothing (zeros, the usual case) or its real address
+    declared = rng.choice(["zero", "zero", "real"])
+    decl = ("0.0.0.0", 0) if declared == "zero" else (owner_ip, 7001)
+    ctrl = [send(rc.socks5_greeting([2])), op("recv_n", n=2, label="method"), send(rc.socks5_userpass(b"alice", b"s3cret")), op("recv_n", n=2, label="authstatus"),
+            send(rc.socks5_request(3, decl[0], decl[1])), op("recv_socks5_reply", label="reply"), op("set", flag="assoc"), op("recv_eof", timeout_ms=6000, label="ctl-eof", on_fail="continue")]
+    sc.actors.append({"kind": "tcp_client", "id": "ctl", "src": owner_ip, "dst": li["addr"], "start_ms": 50, "ops": ctrl})
+    own_first = rng.random() < 0.4
+    t_owner = rng.choice([0, 300]) if own_first else rng.choice([400, 1500])
+    t_stranger = rng.choice([500, 900]) if own_first else rng.choice([0, 1, 100])
+    mine, theirs = b"<OWNER-%08x>" % rng.getrandbits(32), b"<STRANGER-%08x>" % rng.getrandbits(32)
+    sc.actors.append({"kind": "udp", "id": "uowner", "bind": "%s:7001" % owner_ip, "start_ms": 50,
+                      "ops": [op("wait", flag="assoc", timeout_ms=5000), op("sleep", ms=t_owner), op("send", to="socks5reply:ctl", hex=rc.socks5_udp_wrap(oip, oport, mine).hex()), op("sleep", ms=3000)]})
+    sc.actors.append({"kind": "udp", "id": "ustranger", "bind": "%s:%d" % (stranger_ip, rng.choice([7001, 7777])), "start_ms": 50,
+                      "ops": [op("wait", flag="assoc", timeout_ms=5000), op("sleep", ms=t_stranger)] +
+                             [x for _ in range(rng.choice([1, 3])) for x in (op("send", to="socks5reply:ctl", hex=rc.socks5_udp_wrap(oip, oport, theirs).hex()), op("sleep", ms=50))] + [op("sleep", ms=3000)]})
+    sc.meta.update({"part": "d", "enforce": enforce, "declared": declared, "own_first": own_first, "mine": mine.hex(), "theirs": theirs.hex(),
+                    "cls": "d/enf%d/%s/%s" % (enforce, declared, "owner-first" if own_first else "stranger-first"), "cfgkey": "d/%d/%s/%d/%d/%d" % (enforce, declared, own_first, t_owner, t_stranger)})
+    sc.cfg["timeouts"] = {"idle": 10, "udp": 10}
+    sc.max_ms = 12000
+
+
 def gen(rng, tier, i):
     sc = Scenario(rng)
     cname, chaos = G.pick_chaos(rng, weights=(("none", 2), ("mild", 3)))
@@ -188,9 +221,9 @@ def gen(rng, tier, i):
     sc.net["chaos"] = chaos
     sc.net["spawn_yield"] = rng.choice([0, 300, 700])
     sc.net["lock_yield"] = rng.choice([0, 0, 300])   # seeded scheduling points at the asynchronous locks
-    part = rng.choice(["a", "a", "a", "b", "c"])
+    part = rng.choice(["a", "a", "a", "a", "a", "a", "b", "b", "c", "c", "d"])
     sc.meta = {"keep_ops": True}
-    {"a": gen_a, "b": gen_b, "c": gen_c}[part](rng, sc, tier)
+    {"a": gen_a, "b": gen_b, "c": gen_c, "d": gen_d}[part](rng, sc, tier)
     return sc.plan(want_events=True)
 
 
@@ -265,6 +298,16 @@ def oracle(plan, out):
                 v("routed-on-foreign-or-stale-verdict", "a", "%s was routed, but the external program never accepted exactly this pair within cache.timeout=%ds (consultations for this user: %s)" % (
                     desc, meta["timeout"], [(round(tc / 1e6, 3), cp[:12]) for tc, cp in same_user][:6]))
         return V
+    if meta["part"] == "d":
+        got = [bytes.fromhex(r["hex"]) for r in R.records if r.get("actor") == "uorigin" and r.get("udp") == "recv"]
+        theirs = bytes.fromhex(meta["theirs"])
+        if any(theirs in g for g in got):
+            v("forwarded-for-unauthenticated-peer", meta["cls"], "a peer that never authenticated (another host than the association's owner) sent a datagram to the relay port of an "
+              "authenticated UDP association%s: it was forwarded to the destination" % (" (enforceUdpClient on, the owner declared %s)" % meta["declared"] if meta["enforce"] else ""))
+        back = [bytes.fromhex(r["hex"]) for r in R.records if r.get("actor") == "ustranger" and r.get("udp") == "recv"]
+        if back:
+            v("forwarded-for-unauthenticated-peer", meta["cls"] + "/reply", "the unauthenticated peer received %d datagrams from the relay (%s)" % (len(back), back[0][:30].hex()))
+        return V
     if meta["part"] == "b":
         routed = len(R.accepts("origin")) > 0
         valid = meta["presented"] == "client-good"
@@ -304,5 +347,7 @@ def probes(plan, out):
     if meta["part"] == "b":
         routed = len(R.accepts("origin")) > 0 if R.ok else False
         return {"nontrivial": True, "part_b": True, "b_routed": routed}
+    if meta["part"] == "d":
+        return {"nontrivial": True, "part_d_udp_stranger": True}
     told = reply_ok("http", R.op_by_label("c", "reply")) if R.ok else False
     return {"nontrivial": True, "part_c": True, "c_established": told}
